@@ -35,7 +35,7 @@ import (
 	"github.com/seaweedfs/fuse"
 )
 
-const rule = "exhaustive operation sequences on a fresh file of the real mount (chunk size limit 8 B), for both dirty-page buffers: phase writes = every sequence of 1..L writes over offsets 0..10 x lengths {1,3,8,12} x every placement of flushes between them; phase mixed = every sequence up to depth D over {write(off in {0,3,6,10}, len in {1,3,8,12}), flush, truncate(0,2,5,8,12), reopen}; after every operation: size (Attr) and three reads ([0,32), [5,9), [8,24)) against the POSIX byte model; after every flush and at the end (final flush): the entry read back from the filer, resolved with filer.ViewFromChunks and fetched from the volume server, against the model; states = distinct (model bytes, dirty-buffer kind, chunk layout) reached, transitions = operations executed; distinct = (buffer, operation class, outcome)"
+const rule = "exhaustive operation sequences on a fresh file of the real mount (chunk size limit 8 B), for both dirty-page buffers: phase writes = every sequence of 1..3 writes over offsets 0..10 x lengths {1,3,8,12} (quick: third write over offsets {0,8}) x every placement of flushes between them; phase mixed = every sequence up to depth D over {write(off in {0,6,10} (quick {0,6}), len in {1,3,8,12}), flush, truncate(0,2,5,8,12), reopen}; after every operation: size (Attr) and three reads ([0,32), [5,9), [8,24)) against the POSIX byte model; after every flush and at the end (final flush): the entry read back from the filer, resolved with filer.ViewFromChunks and fetched from the volume server, against the model; states = distinct (model bytes, dirty-buffer kind, chunk layout) reached, transitions = operations executed; distinct = (buffer, operation class, outcome)"
 
 func Main() {
 	mc.Main("C30", "model_checking", rule, run)
@@ -462,15 +462,11 @@ func (e *env) runCase(r *mc.Run, cl *mountlib.Classes, states *stateSet, kind, r
 			vis := make([]byte, len(want)) // what the kernel shows: clamped to the size, short reads zero-filled
 			copy(vis, got)
 			if !bytes.Equal(vis, want) {
-				phase := "before-flush"
-				if ft.flushedBefore {
-					phase = "after-flush"
-				}
 				if st := stale(); st != "" {
 					return &result{class: kind + ":read:" + st, at: i,
 						msg: fmt.Sprintf("after %s read [%d,%d) = % x, POSIX model % x (the handle's cached chunk view predates the current chunk list)", s, sh[0], sh[0]+sh[1], vis, want)}
 				}
-				return &result{class: kind + ":read:" + phase + ":after-" + ft.trigger(), at: i,
+				return &result{class: kind + ":read:after-" + ft.trigger(), at: i,
 					msg: fmt.Sprintf("after %s read [%d,%d) = % x, POSIX model % x", s, sh[0], sh[0]+sh[1], vis, want)}
 			}
 			if len(got) < len(want) {
@@ -486,11 +482,11 @@ func (e *env) runCase(r *mc.Run, cl *mountlib.Classes, states *stateSet, kind, r
 			}
 			layout = desc
 			if len(data) != len(o.model) {
-				return &result{class: kind + ":stored-size:after-" + ft.trigger(), at: i,
+				return &result{class: kind + ":stored:after-" + ft.trigger(), at: i,
 					msg: fmt.Sprintf("after %s the stored entry (chunks %s) has size %d, POSIX model has %d", s, desc, len(data), len(o.model))}
 			}
 			if !bytes.Equal(data, o.model) {
-				return &result{class: kind + ":stored-bytes:after-" + ft.trigger(), at: i,
+				return &result{class: kind + ":stored:after-" + ft.trigger(), at: i,
 					msg: fmt.Sprintf("after %s the stored chunks %s resolve to % x, POSIX model % x", s, desc, data, o.model)}
 			}
 		}
@@ -578,33 +574,42 @@ func eachSeq(r *mc.Run, f func(ops []string) bool) {
 		})
 		return ok
 	}
-	if !emit(full, 1, 2) {
-		return
-	}
-	if r.Quick() {
-		if !emit(writeAlphabet([]int{0, 3, 8}, lens), 3, 3) {
-			return
-		}
-	} else if !emit(full, 3, 3) {
-		return
-	}
-	// phase mixed: writes, flushes, truncations, reopen
-	mixed := writeAlphabet(pickInts(r, []int{0, 6}, []int{0, 3, 6, 10}), lens)
+	mixed := writeAlphabet(pickInts(r, []int{0, 6}, []int{0, 6, 10}), lens)
 	mixed = append(mixed, "f", "t0", "t2", "t5", "t8", "t12", "r")
-	mc.Sequences(len(mixed), 1, r.Pick(3, 4), func(seq []int) bool {
-		var ops []string
-		for i, x := range seq {
-			if i > 0 && mixed[x] == "f" && ops[i-1] == "f" {
-				return true // flush directly after flush: the same as one flush
+	emitMixed := func(n int) bool {
+		ok := true
+		mc.Sequences(len(mixed), n, n, func(seq []int) bool {
+			var ops []string
+			for i, x := range seq {
+				if i > 0 && mixed[x] == "f" && ops[i-1] == "f" {
+					return true // flush directly after flush: the same as one flush
+				}
+				ops = append(ops, mixed[x])
 			}
-			ops = append(ops, mixed[x])
-		}
-		return f(ops)
-	})
+			if !f(ops) {
+				ok = false
+			}
+			return ok
+		})
+		return ok
+	}
+	// shortest first across both phases
+	third := full
+	if r.Quick() {
+		third = writeAlphabet([]int{0, 8}, lens)
+	}
+	_ = emit(full, 1, 1) && emitMixed(1) &&
+		emit(full, 2, 2) && emitMixed(2) &&
+		emitMixed(3) && emit(third, 3, 3) &&
+		(r.Quick() || emitMixed(4))
 }
 
 func run(r *mc.Run) {
-	defer mountlib.QuietGlog()()
+	if os.Getenv("VERIF_CHILD_PHASE") == "" {
+		// worker processes leave through os.Exit inside r.Parallel (no deferred
+		// cleanup); there the cluster package discards the log output
+		defer mountlib.QuietGlog()()
+	}
 	cl := mountlib.NewClasses(r)
 	states := &stateSet{m: map[string]struct{}{}}
 	if r.Replay != "" {
@@ -622,7 +627,7 @@ func run(r *mc.Run) {
 	}
 	const shards = 16
 	start := time.Now()
-	budget := mountlib.Budget(r, 70*time.Second, 11*time.Minute)
+	budget := mountlib.Budget(r, 50*time.Second, 11*time.Minute)
 	r.Parallel("sequences", shards, func(shard, n int) {
 		e := newEnv()
 		defer e.close()
@@ -635,6 +640,9 @@ func run(r *mc.Run) {
 			}
 			r.Cases(1)
 			res := e.runCase(r, cl, states, kind, reads, ops, true)
+			if shard == 0 {
+				r.Sample(fmt.Sprintf("sequence-of-%d", len(ops)), w)
+			}
 			if res == nil {
 				return nil
 			}
